@@ -12,14 +12,14 @@ verdict); a mismatch is reported as DRIFT of the driver, not as a verdict.
 
 Trusted projections: `project_text` (character -> <<class, cell width>> with
 rich.cells.get_character_cell_size of the tree under test) and `line_widths` (segment stream ->
-lines -> cell widths with rich.cells.cell_len of the tree under test; C13's subject)."""
+lines -> cell widths by bisection over the width table of the tree under test, independent of rich.cells."""
 import io
 import json
 import os
 
 # ---- content alphabets ---------------------------------------------------------------------------
 NARROW = "abcxyz-.0A"
-WIDE = "\u4e16\u754c\u3042\U0001F600\U0001F63D\uff21\uac00\U0001F469"   # CJK, kana, emoji, fullwidth A, Hangul syllable
+WIDE = "\u4e16\u754c\u3042\U0001F600\U0001F63D\uff21\uac00\U0001F469\uffe5\u1100\U0003fffd"   # CJK, kana, emoji, fullwidth A, Hangul syllable; the last wide BMP range (fullwidth yen), the first wide range (Hangul Jamo), the last wide range of the table
 ZERO = "\u0301\u200b\u200d\u0300\ufe0f"                        # combining marks, ZWSP, ZWJ, VS16
 SPACE = " "
 WIDE_SPACE = "\u3000"
@@ -38,9 +38,33 @@ _LINE_BOUNDARIES = set("\r\x0b\x0c")
 SPLITLINES_ONLY = "\x1c\x1d\x1e\x85\u2028\u2029"
 
 
+_TABLE = []
+
+
+def table_char_width(ch):
+    """the width the property speaks of: the entry of the width table (rich/_cell_widths.py of the tree under test) that holds the
+    code point - looked up here by bisection over the table itself, NOT with rich.cells (whose lookup is C13's subject and may be
+    the very thing a change broke): -1 entries count 0, code points in no entry count 1"""
+    import bisect
+    if not _TABLE:
+        from rich._cell_widths import CELL_WIDTHS
+        _TABLE.append([r[0] for r in CELL_WIDTHS])
+        _TABLE.append(list(CELL_WIDTHS))
+    cp = ord(ch)
+    i = bisect.bisect_right(_TABLE[0], cp) - 1
+    if i >= 0:
+        lo, hi, w = _TABLE[1][i]
+        if lo <= cp <= hi:
+            return 0 if w == -1 else w
+    return 1
+
+
+def table_cell_len(s):
+    return sum(table_char_width(ch) for ch in s)
+
+
 def _cw():
-    from rich.cells import get_character_cell_size
-    return get_character_cell_size
+    return table_char_width
 
 
 def project_text(s):
@@ -1122,8 +1146,7 @@ def line_widths(env, renderable, W, cfg=None):
     lines = text.split("\n")
     if lines and lines[-1] == "":
         lines.pop()
-    cell_len = env.cell_len
-    ws = [cell_len(l) for l in lines]
+    ws = [table_cell_len(l) for l in lines]
     return [sorted(set(ws), reverse=True), len(ws)], ""
 
 
